@@ -81,6 +81,12 @@ RstInFlip(p, how, t) ==
 \* the peer opens a second stream (with its hello) without closing the first: the node replaces its handler
 DupIn(p)   == /\ K("dupIn") /\ conn[p] = "up" /\ rup[p] /\ Fault /\ Add(<<PeerAct(p)>>)
               /\ UNCHANGED <<wsubs, relays, kind, conn, gated, held, rup, their, bst, nmsg, remotes, quiets>>
+\* ... and the second stream's hello announces a DIFFERENT, non-empty set S (subset, disjoint or superset of what the
+\* first stream announced): what was learnt on the replaced stream must not survive
+DupInSet(p, S) ==
+              /\ K("dupInSet") /\ conn[p] = "up" /\ rup[p] /\ Fault /\ S # their[p] /\ S # {}
+              /\ Add(<<[a |-> "peer", p |-> p, subs |-> SetToSeq(S)]>>) /\ their' = [their EXCEPT ![p] = S]
+              /\ UNCHANGED <<wsubs, relays, kind, conn, gated, held, rup, bst, nmsg, remotes, quiets>>
 Down(p)    == /\ K("down") /\ conn[p] = "up" /\ ~held[p] /\ ~gated[p] /\ Fault /\ Add(<<[a |-> "down", p |-> p]>>)
               /\ conn' = [conn EXCEPT ![p] = "down"] /\ rup' = [rup EXCEPT ![p] = FALSE]
               /\ UNCHANGED <<wsubs, relays, kind, gated, held, their, bst, nmsg, remotes, quiets>>
@@ -117,6 +123,7 @@ Next ==
                          \/ RstIn(p, "resetOut") \/ RstIn(p, "closeOut") \/ Msg(p)
     \/ \E p \in Peers, t \in Topics, f \in BOOLEAN : RSub(p, t, f)
     \/ \E p \in Peers, t \in Topics : RstInFlip(p, "resetOut", t) \/ RstInFlip(p, "closeOut", t)
+    \/ \E p \in Peers, S \in SUBSET Topics : DupInSet(p, S)
     \/ Quiet \/ BSub \/ BCancel \/ NextK(1) \/ NextK(3)
 
 Spec == Init /\ [][Next]_vars
